@@ -467,8 +467,8 @@ pub fn run(args: &Args) -> i32 {
             }
         };
         ev.evaluations = 1;
-        let v = check_case(&case).violations;
-        return finish(args, ev, v, &|c| check_case(c).violations);
+        let v = recheck(&case);
+        return finish(args, ev, v, &recheck);
     }
     let ms = crate::props::families::members(&["fixtures", "struct", "funcs", "locals", "names", "idshift", "leb", "reach", "minimal"], args, &mut ev);
     let mut cases = vec![];
@@ -480,10 +480,19 @@ pub fn run(args: &Args) -> i32 {
     ev.rule = "every member of fixtures/struct/funcs/locals/names x {no pass, gc}: inside on_parse every index of every index space (and one past the end) \
         is looked up in IndicesToIds and the entity it returns, described through public getters, is compared with entity i of the wasmparser-0.259 model of the input; \
         a spy CustomSection queries IdsToIndices for every live id while serialising and each answer is compared with the position the entity really has in the \
-        emitted binary (iso maps). non-trivial = walrus renumbered something"
+        emitted binary (iso maps). Plus the emit-time map over edit histories (props/indexmaps_edits.rs): explicit-state exploration of additions to every index space, import re-registration, deletions and gc \
+        on a module whose entities carry physical markers; in every state every answer of the map is compared with the marker found at that index of the emitted binary. non-trivial = walrus renumbered something"
         .into();
     ev.bounds = json!({"tier": args.tier.s()});
     ev.assumptions = vec!["wmodel decoder + iso maps (forced by exports/imports/markers) identify entities in the output".into()];
-    let viol = run_sweep(args, &mut ev, &cases, &check_case);
-    finish(args, ev, viol, &|c| check_case(c).violations)
+    let mut viol = run_sweep(args, &mut ev, &cases, &check_case);
+    viol.extend(crate::props::indexmaps_edits::run_model(args, &mut ev));
+    finish(args, ev, viol, &recheck)
+}
+
+fn recheck(c: &Case) -> Vec<Violation> {
+    if c.cfg.get("map_edits").is_some() {
+        return crate::props::indexmaps_edits::recheck(c);
+    }
+    check_case(c).violations
 }
